@@ -251,6 +251,54 @@ def r2(chk, prog):
     chk.check(bool(lp) and src_ok, 'R2', g.name, 'every word is copied unchanged into the argv array', g.loc())
 
 
+def r4_pairing_state_survives_chunks(chk, prog):
+    """words delivered through file lines / the environment variable continue the value list of the argument that
+    is still open, exactly as the next argv word does: the pairing state of the handler (mpLastArg, 'the argument
+    whose value list is open') is written only by the per-word functions and by the scope of a whole evaluation -
+    never by a function that runs once per chunk (a file line, the environment variable, a nested argument file),
+    i.e. by iterateArguments() or any function between the evaluation entry point and it"""
+    hf = [f for f in prog.functions if f.classq == 'celma::prog_args::Handler' and f.body is not None]
+    by_key = {f.key: f for f in hf}
+    calls = {f.key: {c.get('ckey') for c in f.calls() if c.get('ckey') in by_key} for f in hf}
+    it = [f for f in hf if f.short == 'iterateArguments']
+    chk.require(it, 'Handler::iterateArguments not found')
+    chunk = {it[0].key}
+    changed = True
+    while changed:
+        changed = False
+        for k, cs in calls.items():
+            if k not in chunk and cs & chunk and by_key[k].short not in ('evalSingleArgument', 'processArg',
+                                                                        'handleIdentifiedArg'):
+                chunk.add(k)
+                changed = True
+    # the scope of one complete evaluation may reset the state for the next evaluation
+    entry = {k for k in chunk if by_key[k].short in ('evalArguments', 'evalArgumentsErrorExit')}
+    chunk -= entry
+    chk.require(len(chunk) >= 3, 'functions that run once per chunk: %s' % sorted(by_key[k].short for k in chunk))
+    resetters = {f.key for f in hf if f.key not in chunk and any(
+        n.get('k') == 'BinaryOperator' and n.get('op') == '=' and field_name(children(n)[0]) == 'mpLastArg'
+        for n in f.walk()) and f.short not in ('processArg', 'evalSingleArgument')}
+    for k in sorted(chunk):
+        f = by_key[k]
+        writes = []
+        for n in f.walk():
+            if n.get('k') == 'BinaryOperator' and n.get('op') == '=' and field_name(children(n)[0]) == 'mpLastArg':
+                writes.append((n, 'assignment'))
+            elif n.get('k') == 'DeclStmt':
+                for d in n.get('decls', []):
+                    if isinstance(d.get('init'), dict) and mentions_field(d['init'], 'mpLastArg') and any(
+                            t in d.get('t', '') for t in ('ResetAtExit', 'ScopedValue', 'ScopeExitExecute')):
+                        writes.append((n, 'scoped reset (%s)' % d['name']))
+            elif n.get('k') in CALL_KINDS and n.get('ckey') in resetters:
+                writes.append((n, 'call of %s()' % by_key[n['ckey']].short))
+        chk.check(not writes, 'R4', f.name, 'the open value list (mpLastArg) survives the end of a chunk of words '
+                  '[%s() runs once per file line / environment variable / argument vector]' % f.short, f.loc(),
+                  '; '.join('%s at line %s' % (w, n.get('l')) for n, w in writes) +
+                  ': values that continue on the next line / on the command line are no longer values of the '
+                  'open argument')
+    return len(chunk)
+
+
 def run(chk):
     prog, units = rules.prog_args_program()
     chk.units = units
@@ -270,6 +318,8 @@ def run(chk):
     chk.rule('R3', 'override instead of cardinality error; generated argv capacity', 8)
     r1(chk, prog)
     r2(chk, prog)
+    chk.rule('R4', 'the open value list survives chunk boundaries (file lines, environment, argv)', 3)
+    r4_pairing_state_survives_chunks(chk, prog)
     # R3: read-mode flags (C03-R3) and argv capacity (C04-R3)
     sub = type(chk)(chk.pid, chk.tier)
     sub._known = []
